@@ -29,6 +29,15 @@ type Env struct {
 	depth  int
 	useMem func(MemRef) // ensure memory is declared in pre/cur
 	ghost  map[string]Term
+	abs    map[string]*absVar // bound variables of forall/exists that range over absolute array positions
+}
+
+// absVar: the quantifier binds the absolute position a = off + j instead of the index j, so
+// that array reads s[j] appear as (select inner a) -- a pattern E-matching can use without
+// having to solve arithmetic equations.
+type absVar struct {
+	name string // SMT name of the absolute position
+	off  string // offset of the primary slice
 }
 
 func (e *Env) st() *State {
@@ -61,14 +70,12 @@ func (e *Env) memTerm(m MemRef) string {
 
 func sel(arr, idx string) string { return "(select " + arr + " " + idx + ")" }
 
-// eidx is the absolute index of element i of a slice with offset off. It is an SMT
-// function (eidx off i) = (bvadd off i): a macro in quantifier-free scripts, an
-// uninterpreted function with a triggering axiom in quantified ones (so that
-// E-matching on slice elements does not depend on how solvers normalise bvadd).
-func eidx(off, i string) string { return "(eidx " + off + " " + i + ")" }
 func sto(arr, idx, v string) string {
 	return "(store " + arr + " " + idx + " " + v + ")"
 }
+
+// eidx is the absolute index (in the backing array) of element i of a slice with offset off.
+func eidx(off, i string) string { return "(bvadd " + off + " " + i + ")" }
 
 func and(xs ...string) string {
 	var ys []string
@@ -134,6 +141,9 @@ func (e *Env) resolveType(x ast.Expr) types.Type {
 		}
 		if x.Name == "Int" {
 			return mathIntType
+		}
+		if x.Name == "Wide" {
+			return wideIntType
 		}
 		for _, p := range []*types.Package{e.pkg, e.w.rootPkg} {
 			if p == nil {
@@ -208,6 +218,9 @@ func (e *Env) tr(x ast.Expr, hint types.Type) Term {
 			}
 			return mkTerm(w, w.reg.zero(hint), hint)
 		}
+		if av, ok := e.abs[x.Name]; ok {
+			return Term{"(bvsub " + av.name + " " + av.off + ")", bv64, types.Typ[types.Int]}
+		}
 		if v, ok := e.vars[x.Name]; ok {
 			return v
 		}
@@ -275,8 +288,13 @@ func (e *Env) tr(x ast.Expr, hint types.Type) Term {
 		b := e.tr(x.X, nil)
 		switch u := b.T.Underlying().(type) {
 		case *types.Slice:
-			i := e.tr(x.Index, types.Typ[types.Int])
 			m := w.reg.elemMem(u.Elem())
+			if id, ok := x.Index.(*ast.Ident); ok {
+				if av, ok := e.abs[id.Name]; ok && av.off == "(s-off "+b.S+")" {
+					return mkTerm(w, sel(sel(e.memTerm(m), "(s-arr "+b.S+")"), av.name), u.Elem())
+				}
+			}
+			i := e.tr(x.Index, types.Typ[types.Int])
 			return mkTerm(w, sel(sel(e.memTerm(m), "(s-arr "+b.S+")"), eidx("(s-off "+b.S+")", i.S)), u.Elem())
 		case *types.Map:
 			k := e.tr(x.Index, u.Key())
@@ -288,6 +306,24 @@ func (e *Env) tr(x ast.Expr, hint types.Type) Term {
 		b := e.tr(x.X, nil)
 		t := e.evalType(x.Type)
 		return w.ifacePayload(b, t)
+	case *ast.SliceExpr:
+		b := e.tr(x.X, nil)
+		if b.Sort != "Slice" {
+			panic(unsupported("slice expression on " + b.Sort))
+		}
+		intT := types.Typ[types.Int]
+		lo, hi := "#x0000000000000000", "(s-len "+b.S+")"
+		if x.Low != nil {
+			lo = e.tr(x.Low, intT).S
+		}
+		if x.High != nil {
+			hi = e.tr(x.High, intT).S
+		}
+		mx := "(s-cap " + b.S + ")"
+		if x.Max != nil {
+			mx = e.tr(x.Max, intT).S
+		}
+		return Term{fmt.Sprintf("(mk-slice (s-arr %s) (bvadd (s-off %s) %s) (bvsub %s %s) (bvsub %s %s))", b.S, b.S, lo, hi, lo, mx, lo), "Slice", b.T}
 	}
 	panic(unsupported(fmt.Sprintf("unsupported contract expression %s (%T)", types.ExprString(x), x)))
 }
@@ -320,6 +356,10 @@ func (e *Env) constTerm(v constant.Value, t types.Type, hint types.Type) Term {
 	case constant.String:
 		return Term{smtString(constant.StringVal(v)), "String", t}
 	case constant.Int:
+		if t == wideIntType {
+			i, _ := constant.Int64Val(v)
+			return Term{wideLit(i), wideSort, t}
+		}
 		if t == mathIntType {
 			if i, ok := constant.Int64Val(v); ok && i < 0 {
 				return Term{fmt.Sprintf("(- %d)", -i), "Int", t}
@@ -699,6 +739,10 @@ func (e *Env) call(x *ast.CallExpr, hint types.Type) Term {
 		a := e.tr(arg(0), nil)
 		b := e.tr(arg(1), a.T)
 		return Term{and("(= (s-arr "+a.S+") (s-arr "+b.S+"))", "(= (s-off "+a.S+") (s-off "+b.S+"))", "(= (s-len "+a.S+") (s-len "+b.S+"))"), "Bool", boolT}
+	case "sameStart": // two slices start at the same element of the same array
+		a := e.tr(arg(0), nil)
+		b := e.tr(arg(1), a.T)
+		return Term{and("(= (s-arr "+a.S+") (s-arr "+b.S+"))", "(= (s-off "+a.S+") (s-off "+b.S+"))"), "Bool", boolT}
 	case "forall", "exists":
 		id, ok := arg(0).(*ast.Ident)
 		if !ok {
@@ -708,10 +752,53 @@ func (e *Env) call(x *ast.CallExpr, hint types.Type) Term {
 		hi := e.tr(arg(2), intT)
 		e.depth++
 		vn := fmt.Sprintf("q%d_%s", e.depth, id.Name)
-		n := e.sub(map[string]Term{id.Name: {vn, bv64, intT}})
+		// absolute mode: if the body reads s[<var>] for some slice expression s that does not
+		// itself mention the variable, bind the absolute position in s's backing array
+		var prim ast.Expr
+		ast.Inspect(arg(3), func(n ast.Node) bool {
+			if ix, ok := n.(*ast.IndexExpr); ok && prim == nil {
+				if xi, ok := ix.Index.(*ast.Ident); ok && xi.Name == id.Name && !mentions(ix.X, id.Name) {
+					prim = ix.X
+				}
+			}
+			return true
+		})
+		n := e.sub(nil)
+		n.depth = e.depth
+		var rng string
+		if prim != nil {
+			var pt Term
+			func() {
+				defer func() {
+					if r := recover(); r != nil {
+						if _, isU := r.(unsupported); !isU {
+							panic(r)
+						}
+						prim = nil
+					}
+				}()
+				pt = e.tr(prim, nil)
+			}()
+			if prim != nil && pt.Sort == "Slice" {
+				off := "(s-off " + pt.S + ")"
+				n.abs = map[string]*absVar{}
+				for k, v := range e.abs {
+					n.abs[k] = v
+				}
+				n.abs[id.Name] = &absVar{name: vn, off: off}
+				delete(n.vars, id.Name)
+				rel := "(bvsub " + vn + " " + off + ")"
+				rng = and("(bvsle "+lo.S+" "+rel+")", "(bvslt "+rel+" "+hi.S+")")
+			} else {
+				prim = nil
+			}
+		}
+		if prim == nil {
+			n.vars[id.Name] = Term{vn, bv64, intT}
+			rng = and("(bvsle "+lo.S+" "+vn+")", "(bvslt "+vn+" "+hi.S+")")
+		}
 		body := n.bool(arg(3))
 		e.depth--
-		rng := and("(bvsle "+lo.S+" "+vn+")", "(bvslt "+vn+" "+hi.S+")")
 		if name == "forall" {
 			return Term{fmt.Sprintf("(forall ((%s %s)) %s)", vn, bv64, withPatterns("(=> "+rng+" "+body+")", body, vn)), "Bool", boolT}
 		}
@@ -749,7 +836,7 @@ func (e *Env) call(x *ast.CallExpr, hint types.Type) Term {
 		}
 		k := e.tr(arg(1), mt.Key())
 		md, _ := w.reg.mapMems(mt)
-		return Term{sel(sel(e.memTerm(md), m.S), k.S), "Bool", boolT}
+		return Term{and("(not (= "+m.S+" 0))", sel(sel(e.memTerm(md), m.S), k.S)), "Bool", boolT}
 	case "mapDom": // whole domain of a map as an SMT array (for equality)
 		m := e.tr(arg(0), nil)
 		mt := m.T.Underlying().(*types.Map)
@@ -773,7 +860,10 @@ func (e *Env) call(x *ast.CallExpr, hint types.Type) Term {
 		v := e.tr(arg(0), nil)
 		return Term{w.refOf(v), "Int", nil}
 	case "allocBytes":
-		return Term{e.st().A, "Int", mathIntType}
+		return Term{e.st().A, wideSort, wideIntType}
+	case "toWide": // a non-negative machine integer as a 128-bit ghost integer
+		v := e.tr(arg(0), types.Typ[types.Int])
+		return Term{"((_ zero_extend 64) " + v.S + ")", wideSort, wideIntType}
 	case "heapVer":
 		return Term{e.st().H, "Int", mathIntType}
 	case "bytesVal": // abstract content of a byte slice in the current state
@@ -796,7 +886,7 @@ func (e *Env) call(x *ast.CallExpr, hint types.Type) Term {
 		return Term{e.st().W, "Int", nil}
 	case "toInt": // mathematical value of a non-negative machine integer (ghost arithmetic only)
 		v := e.tr(arg(0), types.Typ[types.Int])
-		return Term{"(bv2nat " + v.S + ")", "Int", nil}
+		return Term{"(bv2nat " + v.S + ")", "Int", mathIntType}
 	case "visited": // visited(rangeName, key) -- ghost set of a map range loop
 		id := arg(0).(*ast.Ident)
 		g, ok := e.ghost["visited_"+id.Name]
@@ -888,16 +978,15 @@ func (e *Env) call(x *ast.CallExpr, hint types.Type) Term {
 }
 
 // withPatterns annotates a quantifier body with one single-term pattern per distinct
-// (eidx _ <var>) / (uf_* ... <var> ...) subterm that mentions the bound variable directly.
+// (select <array> <var>) / (uf_* ... <var> ...) subterm in which the bound variable is a direct argument.
 func withPatterns(full, body, v string) string {
 	seen := map[string]bool{}
 	var pats []string
-	for _, head := range []string{"(eidx ", "(uf_"} {
+	for _, head := range []string{"(select ", "(uf_"} {
 		for i := 0; i+len(head) <= len(body); i++ {
 			if body[i:i+len(head)] != head {
 				continue
 			}
-			// matching paren
 			d, j := 0, i
 			for ; j < len(body); j++ {
 				if body[j] == '(' {
@@ -913,12 +1002,14 @@ func withPatterns(full, body, v string) string {
 				break
 			}
 			t := body[i : j+1]
-			if !containsToken(t, v) || seen[t] {
+			if seen[t] || !directArg(t, v) {
 				continue
 			}
-			// the bound variable must be a direct argument (not under arithmetic)
-			if !directArg(t, v) {
-				continue
+			if head == "(select " && !strings.HasSuffix(t, " "+v+")") {
+				continue // the variable must be the index, not part of the array term
+			}
+			if strings.Contains(t, "(ite ") || strings.Contains(t, "(not ") || strings.Contains(t, "(and ") {
+				continue // not usable as a pattern
 			}
 			seen[t] = true
 			pats = append(pats, t)
@@ -934,6 +1025,18 @@ func withPatterns(full, body, v string) string {
 	}
 	b.WriteString(")")
 	return b.String()
+}
+
+// mentions reports whether identifier name occurs in x.
+func mentions(x ast.Node, name string) bool {
+	found := false
+	ast.Inspect(x, func(n ast.Node) bool {
+		if id, ok := n.(*ast.Ident); ok && id.Name == name {
+			found = true
+		}
+		return !found
+	})
+	return found
 }
 
 func containsToken(t, v string) bool {
